@@ -360,4 +360,16 @@ theorem decoder_state_inventory :
         "self.was_broadcast_discovery", "self._client_identifier", "self._spa_identifier", "self._spa_name"], []) := by
   decide +kernel
 
+/-! ### the claim and the removal of a datagram are one step -/
+
+/-- **a datagram claimed by its verb's consumer is taken out of the queue before anything is awaited** (over the regenerated skeleton
+of `GeckoUdpProtocolHandler.consume`, the loop every verb consumer runs): between the look at the head and the pop there is no
+suspension point, so no other consumer - and not the sweeper of unhandled datagrams - can take or drop the datagram this consumer has
+claimed, and the consumer never pops a datagram of another verb (round 17: the pop moved behind the awaited handler) -/
+theorem claimed_datagram_is_popped_before_any_await :
+    Coop.sectionsAtomic (fun a => a.kind == .read && a.name == "queue.head")
+      (fun a => (a.kind == .call && a.name == "queue.pop") || a.kind == .brF)
+      GeckoModel.Generated.Skeletons.sk_driver_udp_protocol_handler__GeckoUdpProtocolHandler_consume = true ∧
+    "queue.pop" ∈ Coop.actions .call GeckoModel.Generated.Skeletons.sk_driver_udp_protocol_handler__GeckoUdpProtocolHandler_consume := by decide +kernel
+
 end GeckoModel.C04
